@@ -65,7 +65,20 @@ def guard_rules(repo, res, rule="GUARD"):
             c = gs[0][0]["cond"]
             p = A.resolve(c, envs.get(id(gs[0][0])))
             ok = p[0] == "bin" and p[1] == ">" and p[2][0] == "mcall" and p[2][1] == "len" and p[3] == ("lit", "1") and ("iter_call_variants" in A.show(p[2]) or "iter_call_variants" in A.reach_calls(c, envs.get(id(gs[0][0])), fn=fn, envs=envs))
-            dd = [x for x in P.find_calls(fn.body, names={"stable_dedup_by"}) if A.before(x, gs[0][0])]
+            # `after dedup by name`: before the test, the list was handed mutably to a function of the module that drops repeated keys
+            # (a `retain` driven by a set insertion), whatever that helper is called
+            lst = None
+            for x in A.walk(c):
+                if x["k"] == "MethodCall" and x["method"] == "len" and x["recv"]["k"] == "Path":
+                    lst = x["recv"]["path"]
+            dd = []
+            for x in P.find_calls(fn.body):
+                if x["k"] != "Call" or not A.before(x, gs[0][0]) or x["func"]["k"] != "Path":
+                    continue
+                takes = any(a["k"] == "Ref" and a.get("mut") and a["expr"]["k"] == "Path" and a["expr"]["path"] == lst for a in x["args"])
+                callee = repo.fn("check::" + x["func"]["path"].split("::")[-1])
+                if takes and callee is not None and any(m["k"] == "MethodCall" and m["method"] == "retain" for m in A.walk(callee.body)) and any(m["k"] == "MethodCall" and m["method"] == "insert" for m in A.walk(callee.body)):
+                    dd.append(x)
             ok = ok and len(dd) == 1
             why = f"under `{A.show(p)[:100]}` after dedup by name"
     res.check(ok, rule, f"{rule}:{fq}:VaryingCommandNames", why, fn.loc())
